@@ -4,8 +4,8 @@ Shares no code with pymablock.algorithm_parsing: own parse of the `with` blocks 
 deletion, own nested-loop Cauchy product, no Hermiticity shortcuts in products, no linear-operator mode.
 
 Semantics (read off the docstring of `series_computation`):
-  * zeroth multi-order: `start = 0` -> absent on all blocks; `start = 1` -> identity on diagonal blocks, off-diagonal
-    blocks fall through to the definition; `start = "X"` / `"X_0"` -> zeroth order of input series X on all blocks;
+  * zeroth multi-order: `start = 0` -> absent on all blocks; `start = 1` -> the identity (diagonal blocks identity, off-diagonal
+    blocks absent); `start = "X"` / `"X_0"` -> zeroth order of input series X on all blocks;
   * otherwise the value is the sum of the body statements in order:
       bare expression                      -> its value
       `if diagonal:` e                     -> diag(e, index) when i == j           (scope function `diag`, default identity)
@@ -148,8 +148,8 @@ class Reference:
             if start == 0:
                 return None
             if start == 1:
-                if i == j:
-                    return self._identity(i)
+                # "start = ... to define the zeroth order of the series", 1 = the identity: nothing off the diagonal
+                return self._identity(i) if i == j else None
             elif isinstance(start, str):
                 src = start[:-2] if start.endswith("_0") and start[:-2] in self.inputs else start
                 if src in self.inputs:
@@ -205,6 +205,13 @@ class Reference:
                 a = self._eval(node.left, index, diagonal)
                 k = self._eval(node.right, index, diagonal)
                 return None if a is None else a / k
+            if isinstance(node.op, ast.Mult):
+                # integer literal times an expression (either side)
+                a = self._eval(node.left, index, diagonal)
+                b = self._eval(node.right, index, diagonal)
+                if isinstance(a, (int, float)) and not isinstance(b, (int, float)):
+                    a, b = b, a
+                return None if a is None else a * b
             raise NotImplementedError(ast.dump(node.op))
         if isinstance(node, ast.IfExp):
             test = eval(compile(ast.Expression(node.test), "<dslref>", "eval"), {}, dict(self.scope, index=index))
